@@ -165,7 +165,9 @@ type typeFlow struct {
 	out map[*ssa.BasicBlock]tstate
 }
 
-func tname(t types.Type) string { return types.TypeString(t, func(p *types.Package) string { return p.Path() }) }
+func tname(t types.Type) string {
+	return types.TypeString(t, func(p *types.Package) string { return p.Path() })
+}
 
 // mayWriteMaps: module functions that (transitively) contain a MapUpdate/delete, call a function value, or call a stdlib decoder.
 func (p *Prog) mayWriteMaps() map[*ssa.Function]bool {
